@@ -4,6 +4,7 @@
 package allocation
 
 import (
+	"errors"
 	"fmt"
 	"net"
 	"sync"
@@ -155,13 +156,16 @@ func (m *Manager) Close() error {
 	m.lock.Lock()
 	defer m.lock.Unlock()
 
+	// Close every allocation even if closing one of them reports an error: stopping at the
+	// first error would leave the relay sockets and read loops of all the others behind.
+	var errs []error
 	for _, a := range m.allocations {
 		if err := a.Close(); err != nil {
-			return err
+			errs = append(errs, err)
 		}
 	}
 
-	return nil
+	return errors.Join(errs...)
 }
 
 // CreateAllocation creates a new allocation and starts relaying.
